@@ -279,7 +279,8 @@ Definition exact_pow (f : f64) (n : Z) : sres :=
       if (o =? 1)%positive then
         (* a power of two: (+-2^(k+e))^n = +-2^((k+e)n) *)
         let E := (k + e) * n in
-        if (-1074 <=? E) && (E <=? 1023) then SVal (VFloat (norm sg E)) else SUnspec
+        (* for a negative exponent the reciprocal 2^(-E) must be a double as well *)
+        if ((if n <? 0 then -1023 else -1074) <=? E) && (E <=? 1023) then SVal (VFloat (norm sg E)) else SUnspec
       else if (0 <? n) && (n <=? 40) then
         let M := sg * Zpos o ^ n in
         let E := (k + e) * n in
